@@ -8,7 +8,9 @@
     (the guard map and the three exemptions are spelled out in `Model/Locks.lean`);
   * `C09_grid_locked`: every dagaz handler that reaches the session's grid holds the state's mutex;
   * `C09_lock_order`: the nesting of lock acquisitions inside the methods has no cycle - the only nesting is
-    `subscriptionMutex` then `mutex` in the component store (`C09_nesting`).
+    `subscriptionMutex` then `mutex` in the component store (`C09_nesting`); `C09_no_reentrant`: no method takes a
+    mutex and then calls, on the same receiver, a method that takes it again (a read-lock re-entrancy deadlocks as
+    soon as a writer queues up in between).
 
   These are properties of the program text, decided by evaluation in the kernel; they say nothing about schedules by
   themselves.  What they leave open - sends made while a lock is held (`Session.Broadcast`, `Notify`), accesses that
@@ -25,5 +27,7 @@ theorem C09_grid_locked : gridUnguarded Hagall.Gen.lockOps = [] := by decide
 theorem C09_nesting : allEdges Hagall.Gen.lockOps =
     [("EntityComponentStore.subscriptionMutex", "EntityComponentStore.mutex")] := by decide
 theorem C09_lock_order : cycles Hagall.Gen.lockOps = [] := by decide
+/-- no method takes a mutex and then calls, on the same receiver, a method that takes it again -/
+theorem C09_no_reentrant : reentrant Hagall.Gen.lockOps Hagall.Gen.selfCalls = [] := by decide
 
 end Hagall.Locks
